@@ -405,6 +405,9 @@ const JS_LINES: &[&str] = &[
   "var c = [b,\n  a];\n",
   "\n",
   "var é = 'x'; var d = 2\n",
+  // syntax errors: `kind: ERROR` rules are the documented way to flag them
+  "let q = = 1;\n",
+  "foo(1,, 2;\n",
 ];
 
 fn gen_src(rng: &mut Rng) -> String {
@@ -431,6 +434,8 @@ const TARGETS: &[(&str, &[&str], &[&str])] = &[
   (r#"{"any":[{"kind":"expression_statement"},{"kind":"call_expression"}]}"#, &["X", "x()"], &["stmt or call"]),
   (r#"{"any":[{"kind":"member_expression"},{"kind":"identifier","regex":"^console$"}]}"#, &["m"], &["member"]),
   (r#"{"pattern":"$F($$$ARGS)","has":{"kind":"arguments","has":{"kind":"number"}}}"#, &["$F()", "call($$$ARGS)"], &["call $F with number", "$F: $$$ARGS"]),
+  (r#"{"kind":"ERROR"}"#, &["", "/* syntax */"], &["syntax error", "syntax error here"]),
+  (r#"{"kind":"ERROR","pattern":"$E"}"#, &["$E"], &["syntax error near $E"]),
 ];
 
 const EXPS: &[&str] = &[
